@@ -211,11 +211,16 @@ impl Prop for C16 {
             f.push(Family::new(
                 "comments-glued",
                 Mode::Full,
-                &format!("{} corpus lines x '#<text>' written directly onto the last token, without a blank in front of '#', <text> in [the full price, 5 %, x, toplantı]: same value as without the comment", nl),
+                &format!("{} corpus lines x '#<text>' written directly onto the last token, without a blank in front of '#', <text> in [the full price, 5 %, x, toplantı, about 9 euro, sum, times 2 minus tax] (operator words and a currency alias inside the comment), also behind a blank: same value as without the comment", nl),
                 move |ch| {
                     let (_, ts) = ch.pick(&lines).clone();
-                    let text = *ch.pick(&["the full price", "5 %", "x", "toplantı"]);
-                    Some(Case::Rewrite(ts, Rw::Comment(format!("\u{1}{}", text))))
+                    // also comments that contain an operator word or a currency alias of the language
+                    let text = *ch.pick(&["the full price", "5 %", "x", "toplantı", "about 9 euro", "sum", "times 2 minus tax"]);
+                    if ch.flag() {
+                        Some(Case::Rewrite(ts, Rw::Comment(format!("\u{1}{}", text))))
+                    } else {
+                        Some(Case::Rewrite(ts, Rw::Comment(text.to_string())))
+                    }
                 },
             ));
         }
@@ -287,7 +292,7 @@ impl Prop for C16 {
             Mode::Full,
             "lines whose token boundaries are unambiguous without blanks (an operator or a parenthesis on one side): '10 / foo + 2', '$25 / hour * 14', 'x = 100 / x / item', '2 * ( 3 + 4 ) - 5', '200 - 10%', '15% / foo', '1024 / 8 / 2', '3 km + 2 km', '12,5 usd * 2', '( 1 + 2 ) * ( 3 + 4 )', 'x = 7 / x * 2 / y', numeric dates '12 / 3 / 2021' (also with '+ 2 days', 'to', a variable as the day), a keyword next to a percentage ('200 off %10', '10% of 200') ... with every boundary independently written with 0, 1 or 2 blanks: the same last slot as the one-blank rendering (a value on one side and an error on the other is a difference)",
             move |ch| {
-                let lines: [&[&str]; 22] = [
+                let lines: [&[&str]; 25] = [
                     // numeric dates: the slashes are tokens of their own
                     &["12", "/", "3", "/", "2021"],
                     &["3", "/", "4", "/", "2021", "+", "2 days"],
@@ -298,6 +303,9 @@ impl Prop for C16 {
                     &["10%", "of 200"],
                     &["40 on", "%25"],
                     &["180 is 10%", "of what"],
+                    &["50", "-", "10%"],
+                    &["$80", "-", "25%"],
+                    &["( 20 + 30 )", "-", "10%"],
                     &["10", "/", "foo", "+", "2"],
                     &["$25", "/", "hour", "*", "14"],
                     &["x = 100\nx", "/", "item"],
